@@ -20,6 +20,13 @@ fn content(file: &str, big: bool) -> Vec<u8> {
 
 /// name class applied to every path component (plain, with space, non-ASCII, leading dot)
 fn rename(name: &str, class: usize) -> String {
+    // the file "g" is concretely called like the file "f" with something appended (siblings one of whose names
+    // is the beginning of the other's), the directory "e" like the directory "d"
+    let name = match name {
+        "g" => "f-2",
+        "e" => "d2",
+        other => other,
+    };
     match class % 4 {
         0 => name.to_string(),
         1 => format!("{name} x"),
@@ -39,6 +46,11 @@ fn unmap_path(p: &str, class: usize) -> String {
             1 => c.strip_suffix(" x").unwrap_or(c).to_string(),
             2 => c.strip_suffix("\u{e9}\u{4e2d}").unwrap_or(c).to_string(),
             _ => c.strip_prefix('.').unwrap_or(c).to_string(),
+        })
+        .map(|c| match c.as_str() {
+            "f-2" => "g".to_string(),
+            "d2" => "e".to_string(),
+            _ => c,
         })
         .collect::<Vec<_>>()
         .join("/")
